@@ -180,13 +180,12 @@ func (i *Instance) ShutdownCallbacks() []error {
 // Restart replaces the servers in i with new servers created from
 // executing the newCasketfile. Upon success, it returns the new
 // instance to replace i. Upon failure, i will not be replaced.
-func (i *Instance) Restart(newCasketfile Input) (*Instance, error) {
+func (i *Instance) Restart(newCasketfile Input) (inst *Instance, err error) {
 	log.Println("[INFO] Reloading")
 
 	i.wg.Add(1)
 	defer i.wg.Done()
 
-	var err error
 	// if something went wrong on restart then run onRestartFailed callbacks
 	defer func() {
 		r := recover()
@@ -201,6 +200,8 @@ func (i *Instance) Restart(newCasketfile Input) (*Instance, error) {
 			}
 			if r != nil {
 				log.Printf("[PANIC] Restart: %v", r)
+				// a reload that panicked has failed: keep the old instance and tell the caller
+				inst, err = i, fmt.Errorf("panic during restart: %v", r)
 			}
 		}
 	}()
